@@ -36,7 +36,9 @@ RULE = ("case kinds: smallm (cone, α, vi, vj), delta (cone, α, value set), cov
         "sequence under several cones, wide→narrow→wide or random with repeats, incl. N>m and integer-row cones, "
         "several ε / predicted sets, interleaved with get_delta / get_smallmij / is_covered on the same arrays, "
         "the array handed over as same object / copy / float32 / Fortran order / strided view: every answer "
-        "must be the model's answer for that call's own arguments). Cones: integer-row cones "
+        "must be the model's answer for that call's own arguments), enduser (the REAL OrderingCone built from "
+        "diag(c)·W0 with per-row scales 0.25…4, its own α: get_delta / ε-F1 exactly as a user calls them must be "
+        "invariant under the row scaling and equal the model's gaps for an independently known α). Cones: integer-row cones "
         "(harness/cones.py + scaled/flat ones) with dyadic value sets (float path exact, compared with ==) and "
         "the bundled orders and rotated orthonormal cones (Pythagorean rotations of the orthant in 2-D / 3-D, square "
         "orthonormal non-permutation W) with their real float W and solver α exported exactly (1e-12 / band); "
@@ -434,6 +436,21 @@ def gen(ctx):
                "model": rng.choice(["exact", "shift", "swap", "noisy"]),
                "shift": [core.dyadic(rng, -4, 4, 2) for _ in range(4)]}
 
+    # ---- END-USER path: the REAL OrderingCone (its own get_alpha_vec) built from non-unit rows
+    pool = [c for c in ALPHA_CONES if c not in ("halfplane2", "wedge3")]
+    for _ in range(ctx.n(25, 800)):
+        name = rng.choice(pool)
+        W0, _, _ = cone_info(name)
+        N = len(W0)
+        scale = [rng.choice([0.25, 0.5, 1.0, 2.0, 4.0]) for _ in range(N)]
+        if len(set(scale)) == 1:
+            scale[rng.randrange(N)] = 2.0 if scale[0] != 2.0 else 0.5
+        n = rng.randint(2, 7)
+        shape, mu = value_set(rng, W0, n, rng.choice([0, 1, 2]))
+        yield {"kind": "enduser", "cone": name, "W0": W0, "scale": scale, "mu": mu, "shape": shape,
+               "eps": sorted({0.0, core.dyadic(rng, 0, 12, 2), core.dyadic(rng, 0, 40, 3)}),
+               "pred_shape": rng.choice(["true", "all", "subset", "random"]), "pick": rng.random()}
+
     # ---- HISTORY: one value set scored under a sequence of cones in one process
     for _ in range(ctx.n(14, 500)):
         yield gen_history(ctx)
@@ -511,7 +528,7 @@ def run_case(ctx, case):
     ctx.count("kind_" + kind)
     ctx.count("cone_" + case["cone"])
     {"smallm": run_smallm, "delta": run_delta, "cover": run_cover, "uncov": run_uncov, "f1": run_f1,
-     "hv": run_hv, "hvmodel": run_hvmodel, "history": run_history}[kind](ctx, case)
+     "hv": run_hv, "hvmodel": run_hvmodel, "history": run_history, "enduser": run_enduser}[kind](ctx, case)
 
 
 def _classify_gap(ctx, case, what, got, spec: Fr, bro: Fr, exact, where):
@@ -892,6 +909,150 @@ def run_f1(ctx, case):
     ctx.case_done(case, nontrivial, canon=[W, alpha, case["mu"], truth, pred, case["eps"]])
 
 
+# --------------------------------------------------------------------------------------------- end-user path
+_real_cones: dict = {}
+
+
+def _real_cone(W):
+    """OrderingCone built by the real constructor (α from the code's own get_alpha_vec), cached per W"""
+    from vopy.ordering_cone import OrderingCone
+
+    key = tuple(tuple(r) for r in W)
+    if key not in _real_cones:
+        with warnings.catch_warnings():
+            warnings.simplefilter("ignore")
+            _real_cones[key] = OrderingCone(np.array(W, dtype=float))
+    return _real_cones[key]
+
+
+def alpha_closed_form(W):
+    """α_n = max{w_n·u | W u ≥ 0, ‖u‖ ≤ 1} where it is known in closed form, else None:
+    ‖w_n‖ when w_n ∈ C (any cone); for a 2×2 cone otherwise the better of the two extreme rays."""
+    W = [[float(x) for x in r] for r in W]
+    out = []
+    for n, w in enumerate(W):
+        if all(sum(a * b for a, b in zip(v, w)) >= 0 for v in W):
+            out.append(math.sqrt(sum(x * x for x in w)))
+        elif len(W) == 2 and len(w) == 2:
+            rays = []
+            for k in (0, 1):
+                o = W[1 - k]
+                r = [-o[1], o[0]]
+                if sum(a * b for a, b in zip(W[k], r)) < 0:
+                    r = [-r[0], -r[1]]
+                rays.append(r)
+            out.append(max(sum(a * b for a, b in zip(w, r)) / math.hypot(*r) for r in rays))
+        else:
+            return None
+    return out
+
+
+def run_enduser(ctx, case):
+    """get_delta / calculate_epsilonF1_score exactly as a user calls them: real OrderingCone, its own α."""
+    from vopy.order import PolyhedralConeOrder
+    from vopy.utils import get_delta
+    from vopy.utils.evaluate import calculate_epsilonF1_score
+
+    W0 = case["W0"]
+    W = [[c * x for x in r] for c, r in zip(case["scale"], W0)]
+    mu = np.array(case["mu"], dtype=float)
+    n = len(mu)
+    try:
+        oc, oc0 = _real_cone(W), _real_cone(W0)
+    except Exception as e:  # noqa: BLE001
+        _viol(ctx, "enduser-cone-crash:" + core.exc_key(e), "OrderingCone constructor raised", case)
+        return
+    r, r0 = call(get_delta, mu.copy(), oc.W, oc.alpha), call(get_delta, mu.copy(), oc0.W, oc0.alpha)
+    if r[0] == "exc" or r0[0] == "exc":
+        _viol(ctx, "delta-crash:" + core.exc_key((r if r[0] == "exc" else r0)[2]), "get_delta raised", case)
+        return
+    d, d0 = np.ravel(r[1]), np.ravel(r0[1])
+    tol = lambda a, b: abs(a - b) <= 1e-7 * max(1.0, abs(a), abs(b))  # noqa: E731
+    # a gap that is 0 in exact arithmetic is 0 in floats only if the products are exact: rows on the quarter
+    # lattice and values on the dyadic lattice (a "facet" value set of a float-W cone has products at 1e-17)
+    Wn = np.array(W, dtype=float)
+    exact = bool(np.all(Wn * 4 == np.round(Wn * 4)) and np.all(mu * 64 == np.round(mu * 64))
+                 and np.all(np.abs(mu) <= 1024))
+    # (R) the geometric gap does not change when the rows of W are rescaled by positive numbers
+    if any(not tol(float(d[i]), float(d0[i])) for i in range(n)):
+        _viol(ctx, "gap-not-scale-invariant",
+              "get_delta(mu, cone.W, cone.alpha) with the real OrderingCone(diag(c)·W0) differs from the one with "
+              "OrderingCone(W0): the gap is a property of the cone, not of the scaling of its facet normals",
+              case, detail={"scaled": [float(x) for x in d], "base": [float(x) for x in d0],
+                            "alpha_scaled": [float(a) for a in np.ravel(oc.alpha)],
+                            "alpha_base": [float(a) for a in np.ravel(oc0.alpha)]})
+    # (R) against the model with an independently known α
+    at = alpha_closed_form(W)
+    ctx.count("enduser_alpha_" + ("closed_form" if at else "scale_only"))
+    order = PolyhedralConeOrder(oc)
+    truth = sorted(int(i) for i in order.get_pareto_set(mu.copy()))
+    ps, u = case["pred_shape"], case["pick"]
+    if ps == "true":
+        pred = list(truth)
+    elif ps == "all":
+        pred = list(range(n))
+    elif ps == "subset":
+        pred = [i for k, i in enumerate(truth) if (u * (k + 2) * 7.3) % 1 < 0.6]
+    else:
+        pred = [i for i in range(n) if (u * (i + 2) * 5.1) % 1 < 0.5]
+    nontrivial = False
+    if at is not None:
+        margs = (core.qmat(mu), core.qmat(W), core.qvec(at))
+        dm = core.parse_qvec(ctx.ask("delta", *margs))
+        if any(not tol(float(d[i]), float(dm[i])) for i in range(n)):
+            _viol(ctx, "gap-real-alpha",
+                  "get_delta with the cone's own α (OrderingCone.alpha) differs from the geometric gap "
+                  "min_n relu(w_n·d)/α_n with α_n = max{w_n·u | u ∈ C, ‖u‖ ≤ 1} known in closed form", case,
+                  detail={"code": [float(x) for x in d], "model": [float(q) for q in dm],
+                          "alpha_code": [float(a) for a in np.ravel(oc.alpha)], "alpha_true": at})
+        nontrivial = any(q > 0 for q in dm)
+        missed = sorted(set(truth) - set(pred))
+        tab = _pair_table(ctx, case["mu"], W, missed, pred)
+        for eps in case["eps"]:
+            gap_ok = all((exact and dm[k] == 0) or abs(dm[k] - F(eps)) > Fr(1, 10 ** 6) * max(1, F(eps))
+                         for k in set(pred))
+            if not (_robust_pairs(tab, eps) and gap_ok):
+                ctx.count("enduser_f1_borderline_skipped")
+                continue
+            model = ctx.ask("f1", *margs, core.nats(truth), core.nats(pred), core.q(eps))
+            if model == "unknown":
+                continue
+            rf = call(calculate_epsilonF1_score, _DS(mu.copy()), order, list(truth), list(pred), eps)
+            ctx.count("enduser_f1_compared")
+            if rf[0] == "exc":
+                _viol(ctx, "f1-crash:" + core.exc_key(rf[2]), "calculate_epsilonF1_score raised", case)
+                continue
+            val = float(rf[1])
+            ok = (val != val) if model == "nan" else (val == val and val == float(Fr(model)))
+            if not ok:
+                _viol(ctx, "f1-real-alpha", "calculate_epsilonF1_score with the real OrderingCone (its own α) differs "
+                      "from the score built from the geometric gaps and ε-coverage", case,
+                      detail={"eps": eps, "pred": pred, "truth": truth, "code": val, "model": model})
+            if truth and sorted(pred) == truth and val != 1.0:
+                _viol(ctx, "f1-true-set", "ε-F1 of the true Pareto set is not 1", case,
+                      detail={"eps": eps, "code": val})
+    else:
+        # no closed form: the score, too, must not depend on the row scaling
+        order0 = PolyhedralConeOrder(oc0)
+        for eps in case["eps"]:
+            if any(abs(float(d0[k]) - eps) <= 1e-6 * max(1.0, eps) and not (exact and d0[k] == 0)
+                   for k in set(pred)):
+                continue
+            missed = sorted(set(truth) - set(pred))
+            tab = _pair_table(ctx, case["mu"], W0, missed, pred)
+            if not _robust_pairs(tab, eps):
+                continue
+            a, b = (call(calculate_epsilonF1_score, _DS(mu.copy()), o, list(truth), list(pred), eps)
+                    for o in (order, order0))
+            ctx.count("enduser_f1_scale_compared")
+            if a[0] == "exc" or b[0] == "exc" or not (float(a[1]) == float(b[1]) or
+                                                      (a[1] != a[1] and b[1] != b[1])):
+                _viol(ctx, "gap-not-scale-invariant", "ε-F1 with OrderingCone(diag(c)·W0) differs from ε-F1 with "
+                      "OrderingCone(W0)", case, detail={"eps": eps, "scaled": str(a[1]), "base": str(b[1])})
+        nontrivial = any(x > 0 for x in d0)
+    ctx.case_done(case, nontrivial, canon=[W0, case["scale"], case["mu"], case["eps"], ps])
+
+
 # --------------------------------------------------------------------------------------------- history
 def _layout(base, how):
     """the same values handed over in another dtype / memory layout"""
@@ -938,6 +1099,10 @@ def run_history(ctx, case):
             tabs[(c, i, j)] = ask_dist2(ctx, case["mu"][i], case["mu"][j], cones[c]["W"])
         return tabs[(c, i, j)]
 
+    # `==` comparisons need exact products: integer rows AND dyadic-lattice values (a "facet"-shaped value
+    # set built from a float-W cone is not on the lattice)
+    lattice = bool(np.all(base * 64 == np.round(base * 64)) and np.all(np.abs(base) <= 1024))
+    exact_of = [bool(c["exactW"]) and lattice for c in cones]
     seen = {}      # identical call -> first answer
     series = {}    # (cone, pred) -> [(eps, value)]
     nontrivial = False
@@ -957,7 +1122,7 @@ def run_history(ctx, case):
             missed = sorted(set(truth) - set(pred))
             pairs = [d2_of(c, i, j) for i in missed for j in set(pred)]
             robust = (all(d is not None and cover_band(d, F(eps), NEAR) is not None for d in pairs)
-                      and _gap_robust(ds, pred, F(eps), cone["exactW"]))
+                      and _gap_robust(ds, pred, F(eps), exact_of[c]))
             if not robust:
                 ctx.count("history_f1_borderline_skipped")
                 continue
@@ -996,7 +1161,7 @@ def run_history(ctx, case):
             r = call(get_delta, arr, W, acol)
             ds = delta_of(c)
             if r[0] == "exc" or np.shape(r[1]) != (n, 1) or any(
-                    not same_value(np.ravel(r[1])[i], ds[i], cone["exactW"]) for i in range(n)):
+                    not same_value(np.ravel(r[1])[i], ds[i], exact_of[c]) for i in range(n)):
                 _viol(ctx, "gap-history", "get_delta in a sequence of calls differs from the gaps of this call's "
                       "cone (or depends on dtype / layout)", case,
                       detail={**where, "code": str(r[1] if r[0] == "ok" else r[1])[:200], "model": [str(q) for q in ds]})
@@ -1005,7 +1170,7 @@ def run_history(ctx, case):
             r = call(get_smallmij, arr[i, :], arr[j, :], W, acol)
             model = ctx.ask("smallm", core.qvec(base[i]), core.qvec(base[j]), core.qmat(cone["W"]),
                             core.qvec(cone["alpha"]))
-            if r[0] == "exc" or not same_value(r[1], Fr(model), cone["exactW"]):
+            if r[0] == "exc" or not same_value(r[1], Fr(model), exact_of[c]):
                 _viol(ctx, "gap-history", "get_smallmij in a sequence of calls differs from the gap formula for "
                       "this call's arguments", case, detail={**where, "code": str(r[1]), "model": model})
         else:
